@@ -32,6 +32,7 @@ LOWER = z3.Function("py_lower", StrS, StrS)   # whole-string lower(), axiomatise
 UPPER = z3.Function("py_upper", StrS, StrS)
 STRIP = z3.Function("py_strip", StrS, StrS)
 VALIDFMT = z3.Function("py_validfmt", StrS, IntS, BoolS)
+VALIDFMTKW = z3.Function("py_validfmtkw", StrS, StrS, BoolS)
 FMTRES = z3.Function("py_format_result", StrS, IntS, StrS)
 FIRSTFIELD = z3.Function("py_firstfield", StrS, StrS)
 LASTPIECE = z3.Function("py_lastpiece", StrS, StrS, StrS)
@@ -133,7 +134,15 @@ class MethodsMixin(object):
 
         def m_format(ex, st, args, kw, node):
             if not z3.is_string_value(s):
-                raise OutOfSubset(".format on non-constant template", node)
+                if args or not kw:
+                    raise OutOfSubset(".format on non-constant template", node)
+                # template.format(k1=.., k2=..) on a non-constant template: defined only if every replacement field of
+                # the template is one of the given keywords (else KeyError/ValueError/IndexError); result abstract
+                self.safety(st, "KeyError", VALIDFMTKW(s, S(",".join(sorted(kw)))), node,
+                            "template may use a replacement field that is not among the keywords given")
+                self.assumptions.add("str.format(**kw) on a non-constant template: result is an unspecified string; "
+                                     "defined iff validfmtkw(template, names)")
+                return VStr(z3.String(fresh_name("fmtkw_result")))
             return VStr(self.brace_format(s.as_string(), args, kw, st, node))
 
         def m_split(ex, st, args, kw, node):
@@ -392,7 +401,10 @@ class MethodsMixin(object):
                 st.heap[oid] = HDict(c.ek, keys, vals, default=c.default, size=size)
                 return VNone()
 
-            tab = dict(get=m_get, update=m_update)
+            def m_keys(ex, st, args, kw, node):
+                return ref          # iterating d.keys() is iterating d (an arbitrary list of its keys)
+
+            tab = dict(get=m_get, update=m_update, keys=m_keys)
             if name in tab:
                 return VFun("dict." + name, tab[name])
             return None
@@ -462,6 +474,16 @@ class MethodsMixin(object):
                 self.safety(st, "TypeError", z3.BoolVal(False), node, "len() of %s" % v.kind)
                 raise PathEnd()
             raise OutOfSubset("len of %r" % (v,), node)
+
+        def f_sorted(ex, st, args, kw, node):
+            v = args[0]
+            if isinstance(v, VRef) and isinstance(st.heap[v.oid], HDict) and st.heap[v.oid].items is None and not kw:
+                # sorted(d) / sorted(d.keys()) used only as an iteration order: the order is abstracted (the loop sees
+                # an arbitrary list of the keys), sound for contracts that do not speak about order
+                self.assumptions.add("sorted(dict) iterated: order abstracted to an arbitrary list of the keys")
+                return v
+            raise OutOfSubset("sorted() of %r" % (v,), node)
+        b["sorted"] = VFun("sorted", f_sorted)
 
         def f_str(ex, st, args, kw, node):
             return VStr(self.strof(args[0], st, node))
@@ -749,6 +771,9 @@ class MethodsMixin(object):
         def sf_validfmt(node, st):
             return VBool(VALIDFMT(self.ev(node.args[0], st).e, self.ev(node.args[1], st).e))
 
+        def sf_validfmtkw(node, st):
+            return VBool(VALIDFMTKW(self.ev(node.args[0], st).e, self.ev(node.args[1], st).e))
+
         def sf_evalv(node, st):
             from contracts.ast_enum import EVAL
             v = self.ev(node.args[0], st)
@@ -772,7 +797,7 @@ class MethodsMixin(object):
         def sf_isdigit(node, st):
             return VBool(ISDIGIT(self.want_str(self.ev(node.args[0], st), st, node)))
 
-        return dict(isdigit_=sf_isdigit, intok=sf_intok, toint=sf_toint, evalv=sf_evalv, eval_plus=sf_eval_plus, validfmt=sf_validfmt, wfmt=sf_wfmt, same_except=sf_same_except, isnone=sf_isnone, isbool=sf_isbool, firstfield=sf_firstfield, lastpiece=sf_lastpiece, isint=sf_isint, isstr=sf_isstr, asstr=sf_asstr, WC=sf_wc, code=_sf_code(self), all=sf_all, old=sf_old, implies=sf_implies, iff=sf_iff, allws=sf_allws,
+        return dict(isdigit_=sf_isdigit, intok=sf_intok, toint=sf_toint, evalv=sf_evalv, eval_plus=sf_eval_plus, validfmt=sf_validfmt, validfmtkw=sf_validfmtkw, wfmt=sf_wfmt, same_except=sf_same_except, isnone=sf_isnone, isbool=sf_isbool, firstfield=sf_firstfield, lastpiece=sf_lastpiece, isint=sf_isint, isstr=sf_isstr, asstr=sf_asstr, WC=sf_wc, code=_sf_code(self), all=sf_all, old=sf_old, implies=sf_implies, iff=sf_iff, allws=sf_allws,
                     lstrip=sf_lstrip, rstrip=sf_rstrip)
 
 
